@@ -286,11 +286,54 @@ func main() {
 		}
 	})
 	ctx.Jobs("manytracks", 1, func(int) { manyTracks() })
+	ctx.Jobs("value-sweeps", 1, func(int) { valueSweeps() })
 	ctx.Sample(map[string]interface{}{"file": "MThd fmt1 2 tracks div 96 | XFIH(5) | MTrk: 0:NoteOn0 128:NoteOn0~ 0:EOT | MTrk filler", "meaning": "alien chunk before the first track, running status"})
 	ctx.Set("token_alphabet", len(tokens))
 	ctx.Set("delta_encodings", len(deltas))
 	ctx.Guard(ctx.NontrivialCount() > 1000, "too few files outside the writer's range")
 	ctx.Finish("all files of the byte-level grammar generator: token sequences (30 event tokens x 6 delta encodings) up to depth 2-6 in a plain file, and depth 1-2 in every file shape (format x tracks x position x 16 divisions x alien chunk placements); non-trivial = files the library's writer never produces (running status tokens, padded VLQs, packets/escapes, unknown meta, alien chunks)")
+}
+
+// valueSweeps: every channel status (explicit and under running status) and
+// every meta type, in a plain file and in a two-track file.
+func valueSweeps() {
+	shapes := []smfgen.Shape{smfgen.BaseShape(), {Name: "fmt1/2trk/seq@1", Format: 1, NTracks: 2, Division: 480, SeqTrack: 1}}
+	sweep := func(kind string, bodies [][]byte, evs [][]refsmf.Event) {
+		for i := range bodies {
+			for _, sh := range shapes {
+				file, exp := smfgen.File(sh, bodies[i], evs[i])
+				ctx.Eval()
+				if ref, err := refsmf.Parse(file, refsmf.Tolerant); err != nil {
+					ctx.Guard(false, "sweep %s: reference decoder rejects %s: %v", kind, engine.Hex(file), err)
+					continue
+				} else if ok, d := sp.CompareParsed(exp, ref); !ok {
+					ctx.Guard(false, "sweep %s: generator/decoder disagree (%s)", kind, d)
+					continue
+				}
+				ctx.NontrivialN(1)
+				diff, _, what, c := decode(file, exp)
+				if diff == "" {
+					continue
+				}
+				feat := fmt.Sprintf("%s:%02X", kind, evs[i][0].Msg[0])
+				if kind == "meta-type" {
+					feat = fmt.Sprintf("%s:%02X", kind, evs[i][1].Msg[1])
+				}
+				sig := "decode:" + diff + ":" + feat
+				if diff == "panic" {
+					sig = c.Sig + ":" + feat
+				}
+				if ctx.SigCount(sig) < 5 {
+					ctx.Violation(sig, map[string]interface{}{"kind": "file", "file": engine.Hex(file), "shape": sh.Name, "what": what})
+				}
+			}
+		}
+		ctx.Add("sweep_"+kind, int64(len(bodies)))
+	}
+	b, e := smfgen.StatusSweep()
+	sweep("status", b, e)
+	b, e = smfgen.MetaSweep()
+	sweep("meta-type", b, e)
 }
 
 // manyTracks: boundary files around the int16 track counter.
